@@ -16,6 +16,7 @@ EXPLANATION = (
     "self.end before it is yielded (inclusive end, never beyond); __iter__ is range('days'); __contains__ is "
     "start <= item <= end. NOT decided: finiteness for amount <= 0 (outside the quantifier)."
     ' Also: the month-end clamp of helpers.add_duration every element goes through, the DAYS_PER_MONTHS rows and the is_leap rule in both back ends.'
+    ' As built: RANGE.tabulated runs Interval.range/__iter__/__contains__ (generators evaluated eagerly) on interval stubs over forward, inverted and inverted-absolute intervals of dates and datetimes, units years..seconds, several amounts, month-end and leap-day starts, reachable and unreachable ends; where it succeeds the shape rules of range() are established by it.'
 )
 
 TEMPLATE = [
